@@ -11,7 +11,7 @@ import sys
 import tempfile
 from typing import Any, Dict, List, Optional
 
-REPO = os.environ.get("HTA_REPO", "/repo")
+REPO = os.environ.get("HTA_REPO") or "/repo"
 if sys.path[0] != REPO:
     sys.path.insert(0, REPO)
 os.environ.setdefault("HTA_VERIF_HOOKS", "1")
